@@ -151,7 +151,7 @@ def case_term(case, d5=True):
 
 
 THEOREMS = ["C14_reachable_inv", "C14_no_inherited_code", "C14_call_state_independent", "C14_history_partial", "C14_history_refuted",
-            "C14_first_call_terminates", "C14_lazy_dialect_diverges", "C14_lazy_specialisation_diverges",
+            "C14_first_call_terminates", "C14_lazy_dialect_diverges", 
             "C14_no_cache_attribute_error", "C14_build_cycle_diverges", "C14_schedules_partial", "C14_schedules_multi_slot_partial"]
 
 
